@@ -205,3 +205,12 @@ Theorem C08_parenthesised_repr_update_refuted :
   /\ Tokens.needs_update_norm (fun _ => true) node canon = Some true.
 Proof. exact TokensProofs.parenthesised_repr_refuted. Qed.
 Print Assumptions C08_parenthesised_repr_update_refuted.
+
+(* every token value_to_token writes for a str value - repr on one line, or the triple-quoted form of map_string (repaired tree) - and for a bytes
+   value meets the token premise of the fixpoint theorems; uses the C12 round-trip theorems *)
+Theorem C08_value_to_token_strings_canon :
+  forall (printable : StrLit.cp -> bool) (s : StrLit.str),
+  (Forall (fun c => (c <= 1114111)%N) s -> TokensProofs.canon_tok printable (Tokens.Tok 3 (StrLit.str_literal printable true s)))
+  /\ (Forall (fun c => (c < 256)%N) s -> TokensProofs.canon_tok printable (Tokens.Tok 3 (StrLit.bytes_repr s))).
+Proof. intros p s. split; [apply TokensProofs.str_literal_canon | intros H; left; apply TokensProofs.bytes_repr_self_repr; exact H]. Qed.
+Print Assumptions C08_value_to_token_strings_canon.
